@@ -9,6 +9,14 @@
           | D <paths>          v := _delpaths(v, paths, a)
           | d <paths>          v := delpaths(v, paths)                 (its own fresh allocator)
           | N                  a := new allocator
+          | F <native> <src>…  push native(src…) — the other write sites, Model/HeapWriters.lean:
+                               add2 (= `_add`, funcOpAdd), add, flatten, flatten0/1/2 (= flatten(depth)), transpose,
+                               reverse, sort, unique, group (= `_group_by` with the values as keys), sortby, uniqueby,
+                               groupby, minby, maxby (= `_sort_by` … `_max_by` with an array of keys), mul (= `_multiply`
+                               on objects: deepMergeObjects), join, implode
+                               (the last two: a string, rendered as `null`, errors not told apart).  Capacities
+                               of the NEW arrays are clipped to their lengths on both sides (Go's `append`
+                               growth policy is not modelled).
      src ::= L <tlit> | R<k> | W<k> (= [r_k, r_k]) | O<k> (= {"x": r_k})
      path ::= p:<elem>,<elem>…   elem ::= k<hex> | i<int> | l<bound>:<bound>   bound ::= <int> | n
                                  (l = the slice `{"start":…,"end":…}`, n = null)   paths ::= P:<path>|<path>…
@@ -25,6 +33,7 @@
 -/
 import Gojq.Model.Heap
 import Gojq.Model.HeapSlice
+import Gojq.Model.HeapWriters
 import Gojq.Model.Wire
 import Driver.Common
 open Gojq Gojq.Heap Gojq.Wire
@@ -267,6 +276,35 @@ def markAny (ps : List PathS) (st : T × List Nat × Nat × Log) : Option (T × 
   | some ps0 => markAll ps0 st
   | none => markAllS ps st
 
+/-- capacities of the arrays allocated since `f0` are clipped to their lengths -/
+partial def clipNew (f0 : Nat) : T → T
+  | .node id o c ks =>
+    .node id o (if !o && id ≥ f0 then ks.length else c) (ks.map fun x => (x.1, clipNew f0 x.2))
+  | t => t
+
+def writerOf (name : String) : Option Writer :=
+  match name with
+  | "add2" => some wOpAdd
+  | "add" => some wAdd
+  | "flatten" => some (wFlatten none)
+  | "flatten0" => some (wFlatten (some 0))
+  | "flatten1" => some (wFlatten (some 1))
+  | "flatten2" => some (wFlatten (some 2))
+  | "transpose" => some wTranspose
+  | "reverse" => some wReverse
+  | "sort" => some wSort
+  | "unique" => some wUnique
+  | "group" => some wGroupBy
+  | "sortby" => some wSortBy
+  | "uniqueby" => some wUniqueBy
+  | "groupby" => some wGroupByK
+  | "minby" => some (wMinMaxBy true)
+  | "maxby" => some (wMinMaxBy false)
+  | "mul" => some wDeepMerge
+  | "join" => some wScalar
+  | "implode" => some wScalar
+  | _ => none
+
 inductive Out where
   | ok (s : St) (w : String)
   | err
@@ -358,6 +396,27 @@ def runOp (toks : List String) (s : St) : Out :=
         | some (st, w) => .ok st w
         | none => .unmodelled "alias"
     | none => .unmodelled "parse"
+  | "F" :: name :: srcToks =>
+    -- the sources, left to right
+    let rec srcs (toks : List String) (st : St) (acc : List T) (fuel : Nat) : Option (List T × Nat) :=
+      match fuel, toks with
+      | _, [] => some (acc.reverse, st.f)
+      | 0, _ => none
+      | fuel + 1, _ => match buildSrc toks st with
+        | some (t, f1, rest) => srcs rest { st with f := f1 } (t :: acc) fuel
+        | none => none
+    match writerOf name, srcs srcToks s [] 4 with
+    | some w, some (args, f1) =>
+      match w args f1 with
+      | .err => .err
+      | .scalar =>
+        if name == "join" || name == "implode" then .ok { s with regs := s.regs ++ [T.null], f := f1 } "W="
+        else .unmodelled "scalar"
+      | .ok t f2 log =>
+        match settle { s with f := f1 } s.v (s.regs ++ [clipNew f1 t]) s.A f2 log with
+        | some (st, w) => .ok st w
+        | none => .unmodelled "alias"
+    | _, _ => .unmodelled "parse"
   | _ => .unmodelled "op"
 
 def splitOps (toks : List String) : List (List String) :=
@@ -385,7 +444,7 @@ def heapLine (line : String) : String :=
             | some "D" | some "d" =>
               -- a failed delpaths may leave placeholders behind: the sequence is abandoned (as in the VM)
               " ; ".intercalate ("halt" :: "err" :: acc).reverse
-            | some "G" | some "g" => go rest { s with regs := s.regs ++ [T.null] } ("err" :: acc)
+            | some "G" | some "g" | some "F" => go rest { s with regs := s.regs ++ [T.null] } ("err" :: acc)
             | _ => go rest s ("err" :: acc)
           | .unmodelled why => "?" ++ why
       go ops init ["init " ++ renderRoots init]
